@@ -19,7 +19,8 @@ EXPLANATION = (
     " ROUND 7: C06.R7-ERRORS-MERGED is shared (E400/E420 of a later part of an if surface only if the resolver merges the errors of all parts)."
     " ROUND 8: C06.R8-COMBINERS-KEEP-BOTH is shared: E400/E420 planted in functions reach the user only if the join of the constants pass and the functions pass keeps both error lists."
     " ROUND 9: R8-COMBINERS-KEEP-BOTH also covers the 3- and 4-tuple: one `.resolve()?` on nested pairs, so that the errors of a function's parameters do not hide the E400/E420 of its body."
-    " ROUND 10: R9-BODY-KEPT-ON-RETURN-ERRORS: of the diagnostics parse_function_body builds itself, only the reviewed UnexpectedSemicolonAfterReturnValue answers with `return Err(..)`; E335 is planted as the poisoned return value of an intact body, so the label scoper still sees the statements.")
+    " ROUND 10: R9-BODY-KEPT-ON-RETURN-ERRORS: of the diagnostics parse_function_body builds itself, only the reviewed UnexpectedSemicolonAfterReturnValue answers with `return Err(..)`; E335 is planted as the poisoned return value of an intact body, so the label scoper still sees the statements."
+    " ROUND 12: R8-COMBINERS-KEEP-BOTH 'Vec<T>::resolve every element' (shared): the resolver of a statement list visits every element and keeps every error list, so an E400/E420 after an earlier erroneous statement is still reported.")
 
 LR = "alpha::scoper::label_references::"
 AN = LR + "Analyzer::"
